@@ -287,3 +287,5 @@ LEVEL_NOTE = ("Trusted: Lean kernel + propext/Classical.choice/Quot.sound; from_
               "engine are parameters of the theorems (executable stand-ins are cross-checked, not verified); the hand-written model of "
               "item_reader.rs/item.rs/main.rs::filter is tied to the code only by the differential correspondence; read errors other than "
               "end-of-input are outside the model.")
+
+TECHNIQUE += ' + translator tie: the glue of DefaultSkimItem::new / output translated from src/helper/item.rs and proved equal to the model (Props/ItemFnsTables.lean)'
